@@ -276,6 +276,12 @@ func (bytesComp) Gen(r *Rand, tier string, emit func(string)) {
 			}
 		}
 	}
+	// unix-domain socket endpoints (plain, TLS, StartTLS)
+	for _, c := range []string{"unix", "unixtls", "unixstarttls"} {
+		emit(fmt.Sprintf("%s echo 65537 1000 %d", c, r.Next()%1000))
+		emit(fmt.Sprintf("%s up 32768 0 %d", c, r.Next()%1000))
+		emit(fmt.Sprintf("%s down 32640 0 %d", c, r.Next()%1000))
+	}
 	// every write size in a row on one connection (sizes are `from`=part .. `to`=len)
 	emit(fmt.Sprintf("dns sweep 150 1 %d", r.Next()%1000))
 	emit(fmt.Sprintf("tcp sweep 400 1 %d", r.Next()%1000))
@@ -291,7 +297,7 @@ func (bytesComp) Gen(r *Rand, tier string, emit func(string)) {
 	emit(fmt.Sprintf("dns echo 1 0 %d", r.Next()%1000))
 	emit(fmt.Sprintf("dns echo 3000 0 %d", r.Next()%1000))
 	if tier == "thorough" {
-		for _, c := range append(carriers, "wss", "stdiotls") {
+		for _, c := range append(carriers, "wss", "stdiotls", "unix", "unixtls") {
 			for _, n := range []int{32639, 32641, 32767, 32769, 65535, 65536, 1 << 20, 3 << 20} {
 				for _, p := range []int{0, 1000, 4096, 32768} {
 					emit(fmt.Sprintf("%s echo %d %d %d", c, n, p, r.Next()%1000))
